@@ -41,6 +41,9 @@ def main():
         tier = sys.argv[sys.argv.index('--tier') + 1]
     if '--only' in sys.argv:
         only = sys.argv[sys.argv.index('--only') + 1]
+    # --neutral: the delivered changes are HARMLESS rewrites (demo passes in both states); the
+    # check is expected to stay silent; kept under /verif/neutral/ with what the check said
+    neutral = '--neutral' in sys.argv
     wt = os.path.join(d, 'wt')
     # bring the scratch worktree to /repo's current HEAD (fix commits land continuously; the
     # models follow /repo HEAD, so a seed must be judged on top of it)
@@ -76,7 +79,7 @@ def main():
             m = re.search(r'(\d+) passed', outt)
             passed = int(m.group(1)) if m else -1
             failed = re.search(r'(\d+) failed', outt)
-        ok_demo = (rc0 == 0 and rc1 != 0)
+        ok_demo = (rc0 == 0 and rc1 == 0) if neutral else (rc0 == 0 and rc1 != 0)
         ok_suite = (passed == BASE_PASSED and not failed)
         t0 = time.time()
         rcc, outc = sh('./check {} --tier {}'.format(pid, tier), cwd=HERE, env={'ODL_REPO': wt})
@@ -85,7 +88,7 @@ def main():
         fail_inputs = [l.strip() for l in outc.split('\n') if l.strip().startswith('failing input')
                        or l.strip().startswith('no longer checks')]
         detected = bool(vio)
-        how = 'missed'
+        how = 'silent (as it should be)' if neutral else 'missed'
         if detected:
             how = 'no-failing-input-found (broken obligation only)' \
                 if vio[0].rstrip().endswith('no-failing-input-found') \
@@ -107,14 +110,16 @@ def main():
         except Exception:
             pass
         n = str(base + int(re.sub(r'\D', '', b) or '0'))
-        dest = os.path.join(HERE, 'seeded', '{}-{}'.format(pid, n))
+        dest = os.path.join(HERE, 'neutral' if neutral else 'seeded', '{}-{}'.format(pid, n))
         os.makedirs(dest, exist_ok=True)
         shutil.copy(patch, os.path.join(dest, 'patch.diff'))
         shutil.copy(os.path.join(bd, 'demo.py'), os.path.join(dest, 'demo.py'))
         meta_out = {
             'property': pid,
             'summary': meta.get('summary', ''),
-            'needs': meta.get('needs', ''),
+            'needs': meta.get('needs', '') or meta.get('why_harmless', ''),
+            'kind': 'harmless rewrite (property still holds)' if neutral else 'seeded defect',
+            'rounding_may_differ': meta.get('rounding_may_differ', None),
             'files': meta.get('files', []),
             'origin': 'independent sub-agent given only the property text and a scratch worktree',
             'repo_head_when_confirmed': head.strip()[:10],
@@ -130,6 +135,7 @@ def main():
             },
             'check_result': {
                 'tier': tier, 'exit': rcc, 'detected': detected, 'how': how,
+                'violation_lines': [l[:300] for l in vio[:5]],
                 'first_reports': [l[:400] for l in fail_inputs[:3]],
                 'summary_line': summ[:400],
             },
